@@ -349,6 +349,59 @@ theorem shell_variant_auto_keeps (l : Lang) (hl : l ≠ .auto) :
     (propsOptions l [(asc "shell_variant", asc "auto")]).map (fun r => (r.1.lang, r.2)) = some (l, true) := by
   cases l <;> first | exact absurd rfl hl | decide
 
+/-! ## the shebang sniff: rows EOF / short read / full window -/
+
+/-- Row "not checking for a shebang" (explicit regular file, or a shell extension found by walking):
+    whatever the sniff reports — nothing read, a short read, a full window — the file is formatted
+    (or printed by `-f`); the sniff only feeds language detection. -/
+theorem sniff_unchecked (F : Fmt) (D : Dif) (f : Flags) (e : Entry) :
+    formatPath F D f e false =
+      match f.find with
+      | .nl => { stdout := e.path ++ [nl] }
+      | .nul => { stdout := e.path ++ [0] }
+      | .off => formatBytes F D f e e.path e.src (fileLang f e.path e.src) := by
+  cases h : f.find <;> simp [formatPath, h]
+
+/-- Rows "checking for a shebang" (extension-less file found by walking, `--detect`): EOF and short
+    reads are dropped silently … -/
+theorem sniff_checked_short (F : Fmt) (D : Dif) (f : Flags) (e : Entry) (h : sniffOf e.src ≠ .window) :
+    formatPath F D f e true = {} := by
+  have hlen : (headOf e.src).length < 9 := by
+    unfold sniffOf at h
+    unfold headOf
+    by_cases h1 : e.src = []
+    · simp [h1]
+    · by_cases h2 : e.src.length < 9
+      · rw [List.length_take]; omega
+      · simp [h1, h2] at h
+  simp [formatPath, hlen]
+
+/-- … and a full window decides by the shebang. -/
+theorem sniff_checked_window (F : Fmt) (D : Dif) (f : Flags) (e : Entry) (h : sniffOf e.src = .window) :
+    formatPath F D f e true =
+      if shebang (headOf e.src) = [] then {} else formatPath F D f e false := by
+  have hlen : ¬ (headOf e.src).length < 9 := by
+    unfold sniffOf at h
+    unfold headOf
+    by_cases h1 : e.src = []
+    · simp [h1] at h
+    · by_cases h2 : e.src.length < 9
+      · simp [h1, h2] at h
+      · rw [List.length_take]; omega
+  by_cases hs : shebang (headOf e.src) = [] <;> simp [formatPath, hlen, hs]
+
+/-- An empty script is not a fixed point of the formatter (it prints a newline), so `-l` on an
+    explicitly named or `.sh` empty file lists it: the EOF row must not skip the file. -/
+theorem empty_file_listed (F : Fmt) (D : Dif) (f : Flags) (e : Entry) (hsrc : e.src = [])
+    (hl : f.list ≠ .off) (hfind : f.find = .off) (o : Opts) (b : Bool)
+    (hro : resolveOpts f e (fileLang f e.path e.src) = some (o, b))
+    (hF : F o e.path [] = .ok [nl]) :
+    (formatPath F D f e false).listed = true := by
+  rw [l_lists_iff_file F D f e hl hfind o b hro]
+  exact ⟨[nl], by rw [hsrc]; exact hF, by rw [hsrc]; simp⟩
+
+example : sniffOf [] = .eof ∧ sniffOf (asc "#!/b") = .short ∧ sniffOf (asc "#!/bin/sh") = .window := by decide
+
 /-! ## the decision tables, stated outright -/
 
 /-- Language by file name (`langFromFilename`); `.sh` and unknown extensions leave it to the shebang. -/
